@@ -7,6 +7,7 @@ open PrimModel
 open Tl1Model
 open ObjRandModel
 open ObjReuseModel
+open ObjResModel
 open Schema_io
 open Xschema_io
 
@@ -85,6 +86,34 @@ let run toks =
                 | None -> "fuel,-"
               end in
       "ok " ^ String.concat " ; " (List.map one steps)
+  (* res <san> <function tid> <result tid> <result bare 0|1> <nargs> <natarg>... | <request TL1 boxed hex> <result hex> :
+     C07, the TL1 leg of the result transcoders under the environment of the request *)
+  | "res" :: san :: ft :: rt :: rbare :: _n :: rest ->
+      let (args, tail) = split_bar rest [] in
+      (match tail with
+       | [req; resb] ->
+           let fr = { fr_ty = tid rt; fr_bare = (rbare = "1"); fr_args = List.map parse_natarg args } in
+           let rq = bytes_of_hex req and rb = bytes_of_hex resb in
+           let fuel = nat_of_int (64 + 4 * (List.length rq + List.length rb)) in
+           (match tr11_req fuel (san = "1") schema (tid ft) fr rq rb with
+            | Some (TrOk (c, Some w)) -> "ok " ^ string_of_int (int_of_nat c) ^ " " ^ hex_of_bytes w
+            | Some (TrOk (c, None)) -> "ok " ^ string_of_int (int_of_nat c) ^ " writeerr"
+            | Some TrEof -> "eof"
+            | Some TrReject -> "reject"
+            | Some TrFuel -> "fuel"
+            | None -> "badrequest")
+       | _ -> "driver-error res: expected <request hex> <result hex>")
+  (* renv <function tid> <nargs> <natarg>... | <request hex> : the result environment of a request *)
+  | "renv" :: ft :: _n :: rest ->
+      let (args, tail) = split_bar rest [] in
+      (match tail with
+       | [req] ->
+           let rq = bytes_of_hex req in
+           (match dec1 (nat_of_int (64 + 4 * List.length rq)) false schema (tid ft) false [] rq with
+            | Some (Ok (q, _)) ->
+                "ok " ^ String.concat " " (List.map dec_of_n (result_env q { fr_ty = O; fr_bare = false; fr_args = List.map parse_natarg args }))
+            | _ -> "badrequest")
+       | _ -> "driver-error renv")
   | ["xwf"] -> if xwf schema xs then "ok true" else "ok false"
   | "ranked" :: rk -> if ranked schema (List.map (fun s -> nat_of_int (int_of_string s)) rk) then "ok true" else "ok false"
   | ["wf"] -> if wf_schema schema then "ok true" else "ok false"
